@@ -9,6 +9,8 @@ fn pipeline_fwd(op: &Op, ctx: &dyn Context, operands: &mut dyn CoordinateSet) ->
     let mut n = usize::MAX;
     for step in &op.steps {
         if step.params.boolean("omit_fwd") {
+            #[cfg(feature = "verif")]
+            crate::verif::step_event(true, step, true, 0, stack.len());
             continue;
         }
         let m = match step.params.name.as_str() {
@@ -17,6 +19,8 @@ fn pipeline_fwd(op: &Op, ctx: &dyn Context, operands: &mut dyn CoordinateSet) ->
             "stack" => stack_fwd(&mut stack, operands, &step.params),
             _ => step.apply(ctx, operands, Fwd),
         };
+        #[cfg(feature = "verif")]
+        crate::verif::step_event(true, step, false, m, stack.len());
         n = n.min(m);
     }
 
@@ -34,6 +38,8 @@ fn pipeline_inv(op: &Op, ctx: &dyn Context, operands: &mut dyn CoordinateSet) ->
     let mut n = usize::MAX;
     for step in op.steps.iter().rev() {
         if step.params.boolean("omit_inv") {
+            #[cfg(feature = "verif")]
+            crate::verif::step_event(false, step, true, 0, stack.len());
             continue;
         }
         // Note: Under inverse invocation "push" calls pop and vice versa
@@ -43,6 +49,8 @@ fn pipeline_inv(op: &Op, ctx: &dyn Context, operands: &mut dyn CoordinateSet) ->
             "stack" => stack_inv(&mut stack, operands, &step.params),
             _ => step.apply(ctx, operands, Inv),
         };
+        #[cfg(feature = "verif")]
+        crate::verif::step_event(false, step, false, m, stack.len());
         n = n.min(m);
     }
 
